@@ -210,7 +210,7 @@ def r3_coercions(chk: Check):
     chk.require(ok, chk.fkey(f, "enum member"), "EnumType: only members of the declared enum", chk.loc(f.module, f.node))
     f = tree.func("core.types", "ObjectType.validate")
     t = src(f.node)
-    ok = "if not isinstance(value, Config):" in t and "if not isinstance(value, types):" in t and t.count("raise ValueError") >= 2
+    ok = "if not isinstance(value, Config):" in t and ("if not isinstance(value, types):" in t or "if not isinstance(value, self.basetype):" in t) and t.count("raise ValueError") >= 2
     chk.require(ok, chk.fkey(f, "configuration subtype"), "ObjectType: only configurations of the declared class (or a subclass)", chk.loc(f.module, f.node))
     # defaults are validated when declared and coerced when used: addArgument validates; __init__ goes through set (R2)
     aa = tree.func("core.types", "ObjectType.addArgument")
